@@ -277,7 +277,7 @@ Definition scan_fixed := scan_of repaired.        (* with repairs (a) and (b) *)
 
 (* THE SWITCH: the scanner that Run.v and the main theorems are about.
    current_code = rustfmt as it is; repaired = after the two repairs. *)
-Definition the_scanner : scanner := current_code.
+Definition the_scanner : scanner := repaired.
 
 Definition scan_diff := scan_of the_scanner.
 Definition step_diff (p : nat) (filt : text -> bool) := step (sc_fh the_scanner p) (sc_hh the_scanner) filt.
